@@ -546,3 +546,132 @@ func runDup(r *rec, idx int, seed int64) (*hx.Result, string) {
 	}
 	return nil, outcome
 }
+
+// ---- variants of the protected names (TamperVariant of EventIdentity.tla) ----------------------------------------------
+
+// variantToken is VariantName(k, vs) of the specification.
+func variantToken(r *rec) string { return r.VK + "~" + r.VS }
+
+// variantName writes the letters of the model's token: the protected name r.VK in other letter case (first letter,
+// all letters or the last letter in upper case) or with one letter replaced by a non-ASCII character that simple
+// case folding maps to it (U+017F long s for s, U+212A Kelvin sign for k). Never the name itself.
+func variantName(r *rec, idx int) string {
+	k := r.VK
+	var out string
+	switch r.VS {
+	case "case":
+		switch idx % 3 {
+		case 0:
+			out = strings.ToUpper(k[:1]) + k[1:]
+		case 1:
+			out = strings.ToUpper(k)
+		default:
+			out = k[:len(k)-1] + strings.ToUpper(k[len(k)-1:])
+		}
+	case "fold":
+		var at []int
+		for i, c := range k {
+			if c == 's' || c == 'k' {
+				at = append(at, i)
+			}
+		}
+		if len(at) == 0 {
+			panic("harness: no letter of " + k + " has a non-ASCII fold")
+		}
+		i := at[idx%len(at)]
+		out = k[:i] + map[byte]string{'s': "\u017f", 'k': "\u212a"}[k[i]] + k[i+1:]
+	default:
+		panic("harness: unknown variant kind " + r.VS)
+	}
+	if out == k || !strings.EqualFold(out, k) {
+		panic("harness: " + out + " is not a case variant of " + k)
+	}
+	return out
+}
+
+// variantLit is the JSON string literal of the variant name: as UTF-8, or the non-ASCII letter as a \u escape.
+func variantLit(name string, idx int) []byte {
+	if (idx/2)%2 == 1 {
+		for i, c := range []rune(name) {
+			if c > 127 {
+				return escLit(name, i)
+			}
+		}
+	}
+	return q(name)
+}
+
+// variantValue is a value of the type the protected member has (so that a decoder that takes the variant for the
+// member accepts it), different from the genuine member's.
+func variantValue(r *rec) json.RawMessage {
+	forgedID := q("$forged:evil.example.org")
+	if !isFormatV1(r.Ver) {
+		forgedID = q(idOf("forged", r.Ver))
+	}
+	switch r.VK {
+	case "event_id", "redacts":
+		return forgedID
+	case "type":
+		if r.Proto.Type == "m.room.create" {
+			return q("m.room.message")
+		}
+		return q("m.room.create")
+	case "room_id":
+		return q("!forged:evil.example.org")
+	case "sender", "state_key":
+		if isPseudo(r.Ver) {
+			return q(pseudoID("bob"))
+		}
+		return q("@mallory:" + hs1)
+	case "content":
+		return json.RawMessage(`{"membership":"ban","zz_forged":true}`)
+	case "hashes":
+		return json.RawMessage(`{"sha256":"` + strings.Repeat("A", 43) + `"}`)
+	case "signatures":
+		return json.RawMessage(`{"evil.example.org":{"ed25519:1":"c2lnbmF0dXJl"}}`)
+	case "depth":
+		return json.RawMessage(`3`)
+	case "origin_server_ts":
+		return json.RawMessage(`1`)
+	case "prev_events", "auth_events":
+		if isFormatV1(r.Ver) {
+			return json.RawMessage(`[[` + string(forgedID) + `,{"sha256":"` + strings.Repeat("A", 43) + `"}]]`)
+		}
+		return json.RawMessage(`[` + string(forgedID) + `]`)
+	case "prev_state":
+		return json.RawMessage(`[]`)
+	case "origin":
+		return q("evil.example.org")
+	case "membership":
+		return q("ban")
+	}
+	panic("harness: no value for a variant of " + r.VK)
+}
+
+// writeWithVariant writes the event with the variant member right before / after the genuine member (at the
+// front / the end of the object where there is none); the other members ascending or descending.
+func writeWithVariant(r *rec, ev map[string]json.RawMessage, name string, idx int) []byte {
+	rest := cloneRaw(ev)
+	val := rest[name]
+	delete(rest, name)
+	ms := membersOf(rest, nil, idx%2 == 1, 0)
+	v := member{name, variantLit(name, idx), val}
+	at := -1
+	for i, m := range ms {
+		if m.name == r.VK {
+			at = i
+		}
+	}
+	var out []member
+	switch {
+	case at < 0 && r.VPos == "before":
+		out = append(append(out, v), ms...)
+	case at < 0:
+		out = append(append(out, ms...), v)
+	case r.VPos == "before":
+		out = append(append(append(out, ms[:at]...), v), ms[at:]...)
+	default:
+		out = append(append(append(out, ms[:at+1]...), v), ms[at+1:]...)
+	}
+	return writeObj(out, idx%2 == 1)
+}
